@@ -589,16 +589,27 @@ def _check_modes_verdict(cm) -> tuple:
     exc = dotted(r.exc.func) if isinstance(r.exc, ast.Call) else dotted(r.exc) if r.exc is not None else None
     from ..model import parent as _parent
     p = _parent(r)
-    if not (isinstance(p, ast.If) and r in p.body and _parent(p) is cm.node):
-        return "undecided", "the raise is not directly guarded by one top-level if"
+    if not (isinstance(p, ast.If) and r in p.body):
+        return "undecided", "the raise is not directly guarded by an if"
+    # the guarding `if` sits at the top level of the function or inside `if self._modes is not None:` blocks
+    holder, blocks = _parent(p), []
+    cur_ = p
+    while holder is not cm.node:
+        if not (isinstance(holder, ast.If) and cur_ in holder.body and isinstance(holder.test, ast.Compare)
+                and dotted(holder.test.left) == "self._modes" and isinstance(holder.test.ops[0], ast.IsNot) and not holder.orelse):
+            return "undecided", "the raise is not directly guarded by one top-level if"
+        blocks.append((holder.body, cur_))
+        cur_, holder = holder, _parent(holder)
+    blocks.append((cm.node.body, cur_))
     # earlier statements: only `if self._modes is None: return` and plain assignments
-    for st in cm.node.body[:cm.node.body.index(p)]:
-        if isinstance(st, (ast.Assign, ast.AnnAssign)) or (isinstance(st, ast.Expr) and isinstance(st.value, ast.Constant)):
-            continue
-        if isinstance(st, ast.If) and not st.orelse and len(st.body) == 1 and isinstance(st.body[0], ast.Return) \
-                and isinstance(st.test, ast.Compare) and dotted(st.test.left) == "self._modes" and isinstance(st.test.ops[0], ast.Is):
-            continue
-        return "undecided", f"statement `{norm(st, 50)}` before the test is not understood"
+    for (blk, upto) in blocks:
+        for st in blk[:blk.index(upto)]:
+            if isinstance(st, (ast.Assign, ast.AnnAssign)) or (isinstance(st, ast.Expr) and isinstance(st.value, ast.Constant)):
+                continue
+            if isinstance(st, ast.If) and not st.orelse and len(st.body) == 1 and isinstance(st.body[0], ast.Return) \
+                    and isinstance(st.test, ast.Compare) and dotted(st.test.left) == "self._modes" and isinstance(st.test.ops[0], ast.Is):
+                continue
+            return "undecided", f"statement `{norm(st, 50)}` before the test is not understood"
     test = p.test
     if isinstance(test, ast.BoolOp) and isinstance(test.op, ast.And):
         rest = [v for v in test.values if not (isinstance(v, ast.Compare) and dotted(v.left) == "self._modes"
